@@ -12,6 +12,9 @@ the README v1 notes.  Outside the documented domain only model == implementation
 import json, math, re, datetime, decimal, base64, enum
 from fractions import Fraction
 from lib.coqrun import coq_str, coq_list
+import os as _os, sys as _sys
+_sys.path.insert(0, _os.path.join(_os.path.dirname(_os.path.dirname(_os.path.abspath(__file__))), 'impl'))
+import c04_types          # the annotation zoo (pure stdlib classes); the reference only calls the classes themselves
 
 META = {
     'id': 'C04',
@@ -54,7 +57,10 @@ META = {
 # ----------------------------------------------------------------------------------------------
 # type descriptors and values -> Coq
 SCALARS = ['str', 'int', 'float', 'bool', 'bytes', 'datetime', 'date', 'time', 'timedelta', 'decimal',
-           'enum:Color', 'enum:Num', 'enum:SColor', 'enum:Mode', 'uuid']
+           'enum:Color', 'enum:Num', 'enum:SColor', 'enum:Mode', 'uuid',
+           # type zoo (direct predicate + reference only): user subclasses of the leaf types, kinds of Enum
+           'sub:datetime', 'sub:date', 'sub:time', 'sub:timedelta', 'sub:decimal', 'sub:str', 'sub:int', 'sub:float',
+           'enum:Prio', 'enum:Perm', 'enum:IPerm', 'enum:Fuzzy', 'enum:Boxed', 'enum:Alias', 'enum:Auto']
 # enum:SColor is a `class SColor(str, Enum)`, enum:Mode an `enum.StrEnum`: members compare equal to their
 # values, so only the concrete type of the loaded object tells whether they were loaded by value
 ENUMS = {'enum:Color': [('red', 'RED'), ('Blue', 'BLUE'), ('', 'EMPTY')],
@@ -70,7 +76,7 @@ STR_ENUMS = ('enum:SColor', 'enum:Mode')
 COQ_SCALAR.update({k: '(%s %s)' % ('SStrEnum' if k in STR_ENUMS else 'SEnum', v) for k, v in ENUM_COQ.items()})
 COQ_KEY = {'str': 'KStr', 'int': 'KInt'}
 COQ_KEY.update({k: '(%s %s)' % ('KStrEnum' if k in STR_ENUMS else 'KEnum', v) for k, v in ENUM_COQ.items()})
-ENGINES = ['v0', 'v1', 'env']
+ENGINES = ['v1', 'v0', 'env']      # v1 first: by-value lookups of composite Flag values must not be pre-materialised by another engine
 COQ_ENGINE = {'v0': 'V0', 'v1': 'V1', 'env': 'Env'}
 
 
@@ -222,6 +228,18 @@ def enc_float(f):
     return '%dp%d' % fl_parts(f)
 
 
+class SubVal:
+    """instance of a user subclass: class name + the value as the base type sees it"""
+    def __init__(self, cls_name, value):
+        self.cls_name, self.value = cls_name, value
+
+    def __eq__(self, other):
+        return type(other) is SubVal and (other.cls_name, other.value) == (self.cls_name, self.value)
+
+    def __hash__(self):
+        return hash((self.cls_name, self.value))
+
+
 class NTVal:
     def __init__(self, items):
         self.items = items
@@ -273,6 +291,8 @@ def enc(v, sort=False):
         return 'Pu%s;' % hx(str(v))
     if t is EnumName:
         return 'M%s;' % hx(v.name)
+    if t is SubVal:
+        return 'X%s:%s' % (hx(v.cls_name), enc(v.value, sort))
     if t is NTVal:
         return 'NT[%s]' % ''.join(enc(x, sort) for x in v.items)
     if t is DCVal:
@@ -423,7 +443,7 @@ def ref_scalar(t, v, eng):
         except (OverflowError, ValueError):
             return UNDOC
         return UNDOC
-    if t.startswith('enum:'):
+    if t in ENUMS:
         for val, name in ENUMS[t]:
             if type(val) is type(v) and val == v:
                 return ok(EnumName(name))
@@ -435,6 +455,24 @@ def ref_scalar(t, v, eng):
             except decimal.InvalidOperation:
                 return UNDOC
         return UNDOC
+    if t in c04_types.SUB_BASE:
+        # a user subclass of a leaf type: the coercion of the base type, as an instance of the subclass
+        base = c04_types.SUB_BASE[t]
+        if v is None or (base == 'int' and v == ''):
+            return UNDOC                        # the documented defaults ('' / 0) say nothing about the class
+        r = ref_scalar(base, v, eng)
+        return ok(SubVal(c04_types.SUB_CLASSES[t].__name__, r[1])) if r not in (UNDOC, REJECT) else r
+    if t in c04_types.ENUM_CLASSES and t not in ENUMS:
+        # "de-serialized to Enum subclasses via the value attribute": the member the Enum class itself
+        # gives for that value (composite Flag values, aliases, _missing_, unhashable values included)
+        cls = c04_types.ENUM_CLASSES[t]
+        kinds = {type(m.value) for m in cls}
+        if type(v) not in kinds:
+            return UNDOC
+        try:
+            return ok(EnumName(c04_types.enum_name(cls(v))))
+        except ValueError:
+            return UNDOC
     if t == 'uuid':
         # "de-serialized from JSON strings using the constructor method -- i.e. UUID(string)"
         if isinstance(v, str):
@@ -468,7 +506,7 @@ def ref_coerce(ty, v, eng):
         return ref_coerce(ty[1], v, eng)        # Annotated[T, ...]: "we only need T"
     # docs/env_magic.rst: "lists/dicts can also be specified in JSON format ... or in shorthand format",
     # with NamedTuple, TypedDict and nested dataclass fields in the complete example
-    dictlike = k in ('dict', 'ddict', 'odict', 'td', 'dc')
+    dictlike = k in ('dict', 'ddict', 'odict', 'td', 'dc') and k != 'root'
     listlike = k in ('list', 'tupv', 'tup', 'nt', 'set', 'fset', 'deque', 'seq', 'mseq', 'coll')
     if isinstance(v, str) and k != 'union' and not (eng == 'env' and (dictlike or listlike)):
         return UNDOC
@@ -557,6 +595,8 @@ def ref_coerce(ty, v, eng):
         if any(p is REJECT for p in parts):
             return REJECT
         return ok(NTVal([p[1] for p in parts] + [None] * (len(ty[1]) - len(v))))
+    if k == 'root':
+        return ref_coerce(['dc', ty[1]], v, eng)   # the root class itself with several fields
     if k == 'dc':
         # nested dataclass: a dict with exactly the field names
         if not isinstance(v, dict) or set(v) != {name for name, _ in ty[1]}:
@@ -633,21 +673,45 @@ BOUNDARY = {
     'enum:SColor': ['red', 'Blue', 'RED', 'blue', 'SRED', '', ' red', None, 1, True],
     'enum:Mode': ['fast', 'Slow', 'FAST', 'slow', 'SLOW', '', None, 0],
     'uuid': [UUID_S, UUID_S.replace('-', ''), '{%s}' % UUID_S, 'urn:uuid:' + UUID_S, UUID_S.upper(), 'x', '', UUID_S[:-1], None, 5],
+    'sub:datetime': ['2020-01-02T03:04:05Z', '2020-01-02T03:04:05', '2020-01-02', 0, 1.5, -1, 1651077045, '1651077045', '1.5', 'x', None, True],
+    'sub:date': ['2020-01-02', 0, 86400, -1, '86400', 'x', None],
+    'sub:time': ['03:04:05Z', '03:04', 'x', 5, None],
+    'sub:timedelta': ['1.5', '01:45', 90, 1.5, 'x', None],
+    'sub:decimal': ['1.50', 'NaN', 1, 2.5, 'x', None],
+    'sub:str': ['a', '', 5, 1.5, True, None, [1]],
+    'sub:int': ['7', ' 7 ', '1.5', '2.5', 2.5, 3.0, 3, '', None, True, 'x'],
+    'sub:float': ['1.5', 1, 2.5, 'x', None],
+    'enum:Prio': [1, 2, 3, 0, '1', 1.0, True, None],
+    'enum:Perm': [1, 2, 4, 3, 5, 6, 7, 0, 8, '1', 'R', None],
+    'enum:IPerm': [1, 4, 6, 7, 0, 8, '6', None],
+    'enum:Fuzzy': ['alpha', 'beta', 'ALPHA', 'Beta', 'x', '', 1, None],
+    'enum:Boxed': [[1, 2], [3], {'k': 1}, [9], [], [2, 1], 'PAIR', None],
+    'enum:Alias': [1, 2, 3, 'UNO', None],
+    'enum:Auto': [1, 2, 3, 4, '1', None],
     'bytes': ['aGVsbG8=', 'aGVsbG8', '', 'AA==', 'AAAA', 'hello', '!!!!', 'aGVs bG8=', 'a', None, 1, True],
 }
 # a value accepted by every engine, used as the neighbour inside containers
 FILLER = {'int': 3, 'str': 'x', 'bool': True, 'float': 2.5, 'datetime': '2021-05-06T07:08:09', 'date': '2021-05-06',
           'time': '07:08:09', 'timedelta': 90, 'decimal': '2.50', 'enum:Color': 'red', 'enum:Num': 2, 'bytes': 'AAAA',
-          'enum:SColor': 'red', 'enum:Mode': 'fast', 'uuid': UUID_S}
+          'enum:SColor': 'red', 'enum:Mode': 'fast', 'uuid': UUID_S,
+          'sub:datetime': '2021-05-06T07:08:09', 'sub:date': '2021-05-06', 'sub:time': '07:08:09', 'sub:timedelta': 90, 'sub:decimal': '2.50',
+          'sub:str': 'x', 'sub:int': 3, 'sub:float': 2.5, 'enum:Prio': 2, 'enum:Perm': 4, 'enum:IPerm': 1,
+          'enum:Fuzzy': 'beta', 'enum:Boxed': [3], 'enum:Alias': 2, 'enum:Auto': 2}
 # per type: the null / boundary values that are placed at EVERY position kind (all contexts, all engines)
 CORE = {'str': [None, 5, 'a'], 'int': [None, '', '7', '1.5', 2.5, True], 'float': [None, '1.5', 1],
         'bool': [None, 'yes', 'no', 1], 'bytes': [None, 'AAAA'], 'datetime': [None, '2020-01-02T03:04:05Z', 1600000000],
         'date': [None, '2020-01-02', 86400], 'time': [None, '03:04:05Z'], 'timedelta': [None, '1.5', '01:45', 90],
         'decimal': [None, '1.50', 2.5], 'enum:Color': [None, 'red', 'RED'], 'enum:Num': [None, 1, 2.0],
-        'enum:SColor': [None, 'red', 'SRED'], 'enum:Mode': [None, 'Slow', 'SLOW'], 'uuid': [None, UUID_S]}
+        'enum:SColor': [None, 'red', 'SRED'], 'enum:Mode': [None, 'Slow', 'SLOW'], 'uuid': [None, UUID_S],
+        'sub:datetime': [None, '2020-01-02T03:04:05Z', 1600000000, '1600000000'], 'sub:date': [None, '2020-01-02', 86400],
+        'sub:time': [None, '03:04:05Z'], 'sub:timedelta': [None, '1.5', 90], 'sub:decimal': [None, '1.50', 2.5], 'sub:str': [None, 5, 'a'],
+        'sub:int': [None, '7', '1.5', 2.5, True], 'sub:float': [None, '1.5', 1],
+        'enum:Prio': [None, 2, '2'], 'enum:Perm': [None, 4, 6, 8], 'enum:IPerm': [None, 1, 6],
+        'enum:Fuzzy': [None, 'alpha', 'BETA', 'x'], 'enum:Boxed': [None, [1, 2], {'k': 1}, [9]],
+        'enum:Alias': [None, 1, 2], 'enum:Auto': [None, 3, 4]}
 # annotations used as dict KEY types (keys are coercion positions too); bytes is not loadable from a key
-KEY_TYPES = [t for t in SCALARS if t != 'bytes']
-ENV_FILLER = dict(FILLER, int='3', bool='yes', float='2.5', timedelta='90', **{'enum:Num': 2})
+KEY_TYPES = [t for t in SCALARS if t not in ('bytes', 'enum:Boxed')]
+ENV_FILLER = dict(FILLER, int='3', bool='yes', float='2.5', timedelta='90', **{'enum:Num': 2, 'sub:int': '3', 'sub:float': '2.5'})
 
 
 def rand_cases(r, tier):
@@ -711,6 +775,27 @@ def ascii_only(v):
     if isinstance(v, dict):
         return all(k.isascii() and ascii_only(x) for k, x in v.items())
     return True
+
+
+FAMILIES = {
+    'temporal': ['date', 'datetime', 'time', 'timedelta', 'sub:datetime', 'sub:date'],
+    'numeric': ['int', 'bool', 'float', 'decimal', 'sub:int', 'enum:Prio'],
+    'text': ['str', 'uuid', 'sub:str', 'enum:Mode', 'enum:SColor'],
+    'enums': ['enum:Color', 'enum:Num', 'enum:Perm', 'enum:IPerm', 'enum:Fuzzy', 'enum:Boxed', 'enum:Alias'],
+}
+# values used side by side (accepted by every engine where possible, epoch numbers included)
+MIX = {'date': ['2020-01-02', 86400, 1.5], 'datetime': ['2020-01-02T03:04:05Z', 0, 1651077045.5], 'time': ['03:04:05Z', '03:04'],
+       'timedelta': ['1.5', 90, '01:45'], 'sub:datetime': ['2020-01-02T03:04:05', 1600000000], 'sub:date': ['2020-01-02', 0],
+       'int': ['7', 3.0, '2.0'], 'bool': ['yes', 0, 'no'], 'float': ['1.5', 1], 'decimal': ['1.50', 2.5], 'sub:int': ['7', 3],
+       'enum:Prio': [1, 2], 'str': [5, None, 'a'], 'uuid': [UUID_S], 'sub:str': ['a', 5], 'enum:Mode': ['fast', 'Slow'],
+       'enum:SColor': ['red', 'Blue'], 'enum:Color': ['red', ''], 'enum:Num': [0, 2], 'enum:Perm': [4, 6, 7], 'enum:IPerm': [1, 6],
+       'enum:Fuzzy': ['alpha', 'BETA'], 'enum:Boxed': [[1, 2], {'k': 1}], 'enum:Alias': [1, 2]}
+WRAPPERS = [
+    (lambda t, v: (['list', t], [v, v]), lambda t, v: (['opt', t], v)),
+    (lambda t, v: (['opt', t], v), lambda t, v: (['dict', 'str', t], {'k': v})),
+    (lambda t, v: (['dict', 'str', t], {'k': v, 'j': v}), lambda t, v: (['list', t], [v])),
+    (lambda t, v: (['tupv', t], [v]), lambda t, v: (['list', ['opt', t]], [None, v])),
+]
 
 
 def all_contexts(t, v):
@@ -851,6 +936,24 @@ def gen_cases(ctx):
         for key in [x for x in CORE[K] + [1, 0, 2.0, True, None] if not isinstance(x, str)]:
             add('key.nonstr', ['dict', K, 'int'], {'__pairs__': [[key, '3']]}, ENGINES)
             add('key.nonstr.list', ['list', ['dict', K, 'int']], [{'__pairs__': [[key, 3]]}], ENGINES)
+    # multi-field classes: related leaf types side by side in ONE class (one generated load function, one
+    # namespace of helpers), in both orders, every field with a value in the same document
+    for fam, types in FAMILIES.items():
+        for a in types:
+            for b in types:
+                if a == b:
+                    continue
+                wrap = r.choice(WRAPPERS)
+                for va in MIX[a]:
+                    for vb in MIX[b]:
+                        add('multi.%s' % fam, ['root', [['fa', a], ['fb', b]]], {'fa': va, 'fb': vb}, ENGINES)
+                va, vb = r.choice(MIX[a]), r.choice(MIX[b])
+                (ta, xa), (tb, xb) = wrap[0](a, va), wrap[1](b, vb)
+                add('multi.%s.wrapped' % fam, ['root', [['fa', ta], ['fb', tb]]], {'fa': xa, 'fb': xb}, ENGINES)
+        for _ in range(2 if ctx.tier == 'quick' else 8):
+            perm = r.sample(types, len(types))
+            add('multi.%s.all' % fam, ['root', [['f%d' % i, t] for i, t in enumerate(perm)]],
+                {'f%d' % i: r.choice(MIX[t]) for i, t in enumerate(perm)}, ENGINES)
     # Union members: a value whose exact type is a scalar member
     for ty, vals in [(['union', ['int', 'str']], [5, '5', 'a', '']), (['union', ['str', 'int']], ['5', 7]),
                      (['union', ['bool', 'int']], [1, True, 0]), (['union', ['float', 'str']], [1.5, 'x']),
@@ -1083,6 +1186,7 @@ def compile_prelude(ctx, text):
 
 # ----------------------------------------------------------------------------------------------
 KNOWN = {
+    'F80-timedelta-subclass-ignored': 'a position annotated with a user subclass of timedelta receives a plain datetime.timedelta (as_timedelta ignores base_type), unlike subclasses of datetime/date/time/Decimal/str/int/float',
     'F36-env-fixed-tuple-string': 'EnvWizard: a fixed-arity tuple field cannot be loaded from a string: the element count is checked against len() of the raw string',
 }
 
@@ -1121,7 +1225,7 @@ def has_env_tuple_string(ty, v):
         return isinstance(v, dict) and any(has_env_tuple_string(t1, v[n]) for n, t1, _ in ty[2] if n in v)
     if k == 'nt':
         return isinstance(v, list) and any(has_env_tuple_string(t1, x) for (_, t1, _), x in zip(ty[1], v))
-    if k == 'dc':
+    if k in ('dc', 'root'):
         return isinstance(v, dict) and any(has_env_tuple_string(t1, v[n]) for n, t1 in ty[1] if n in v)
     if k == 'union':
         return any(has_env_tuple_string(t1, v) for t1 in ty[1])
@@ -1131,6 +1235,8 @@ def has_env_tuple_string(ty, v):
 
 
 def known_region(case, eng):
+    if 'sub:timedelta' in json.dumps(case['ty']):
+        return 'F80-timedelta-subclass-ignored'
     if eng == 'env' and has_env_tuple_string(case['ty'], case['val']):
         return 'F36-env-fixed-tuple-string'
     return None
@@ -1143,12 +1249,20 @@ _OPEN = {'NT[': 'namedtuple[', 'DC[': 'dataclass[', 'DD[': 'defaultdict[', 'OD['
 _TOKEN = re.compile(r'(NT\[|DC\[|DD\[|OD\[|FZ\{|Z\{|Q\[|L\[|T\[|D\[)|(Pdec|Pdt|Ptd|Pu|Pd|Pt|S|Y|M)([0-9a-f]*);|I(-?[0-9]+);|F([^;]*);|(B1|B0|N)|([\]}])')
 
 
+_SUBTAG = re.compile(r'X((?:[0-9a-f]{2})+):')
+
+
 def pretty(code):
     """readable form of an encoded outcome (hex payloads decoded)"""
     if code.startswith('E'):
         return code
     out, pos = [], 0
     while pos < len(code):
+        mx = _SUBTAG.match(code, pos)
+        if mx:
+            out.append('%s:' % bytes.fromhex(mx.group(1)).decode('utf-8', 'replace'))
+            pos = mx.end()
+            continue
         m = _TOKEN.match(code, pos)
         if not m:
             return code                      # unknown shape (e.g. an unexpected Python type): leave as is
@@ -1352,6 +1466,7 @@ def unit_checks(ctx, cases):
 # ----------------------------------------------------------------------------------------------
 def replay_known(ctx):
     wit = [
+        ('F80-timedelta-subclass-ignored', {'tag': 'top', 'ty': ['list', 'sub:timedelta'], 'val': [90, '1.5'], 'engines': ['v0']}, 'v0', 'UTC'),
         ('F36-env-fixed-tuple-string', {'tag': 'env.tup', 'ty': ['tup', ['int', 'bool']], 'val': '1,yes', 'engines': ['env']}, 'env', 'UTC'),
     ]
     for fid, case, eng, tz in wit:
